@@ -81,6 +81,10 @@ Definition req_geom (code : Z) (arg : sx) : sx :=
       match sx_gval a, sx_gval b, sx_bool e, sx_bool n, sx_bool h with
       | Some a, Some b, Some e, Some n, Some h => of_bool (ok_eq_g a b e n h)
       | _, _, _, _, _ => bad end
+  | 1812, SS s => of_bool (padding_judged s)
+  | 1813, SL [a; SS printed] =>
+      match sx_size a with Some a => of_bool (ok_print_stmt (s_val a) (s_unit a) printed) | None => bad end
+  | 1814, SS s => of_bool (two_judged s)
   | 1810, SS s => of_result (fun p => SL [of_size (fst p); of_size (snd p)]) (two_sizes s)
   | 1811, SL [SS s; obs] =>
       match sx_result sx_size2 obs with Some o => of_bool (ok_two s o) | None => bad end
@@ -121,7 +125,7 @@ Definition req_geom (code : Z) (arg : sx) : sx :=
 
 Definition dispatch (code : Z) (arg : sx) : option sx :=
   match code with
-  | 1800 | 1801 | 1802 | 1803 | 1804 | 1805 | 1806 | 1807 | 1808 | 1809 | 1810 | 1811
+  | 1800 | 1801 | 1802 | 1803 | 1804 | 1805 | 1806 | 1807 | 1808 | 1809 | 1810 | 1811 | 1812 | 1813 | 1814
   | 1300 | 1301 | 1302 | 1303 | 1304 => Some (req_geom code arg)
   | _ => None
   end.
